@@ -1,7 +1,7 @@
 (* C07: parser totality, tree of ranges as a lossless cover.
    op C07.parse  input: the text in hex   observed: the Go parser's tree / error chain
      model  = rendering of Parser.parse_text on the same bytes
-     spec   = wf_tree_b && cover_b && wf_leaves_b && wf_keywords_b on the OBSERVED tree, err_in_bounds_b on the
+     spec   = wf_tree_b && cover_b && wf_leaves_b && wf_keywords_b && wf_separators_b (&& determined_b, which they imply: C07_specs_determine) on the OBSERVED tree, err_in_bounds_b on the
               observed chain
    op C07.cls    input: "lo hi"           observed: L/D/- per rune (unicode.IsLetter/IsDigit) *)
 open Drv_util
@@ -237,6 +237,8 @@ let () =
           else if not (K.cover_b text f) then "FAIL:cover_b"
           else if not (K.wf_leaves_b K.UnicodeM.is_letter K.UnicodeM.is_digit text f) then "FAIL:wf_leaves_b"
           else if not (K.wf_keywords_b text f) then "FAIL:wf_keywords_b"
+          else if not (K.wf_separators_b text f) then "FAIL:wf_separators_b"
+          else if not (K.determined_b K.UnicodeM.is_letter K.UnicodeM.is_digit text f) then "FAIL:determined_b"
           else "ok"
       end in
     (model, spec));
